@@ -30,6 +30,7 @@ import (
 
 	"github.com/containerd/nri/pkg/adaptation"
 	"github.com/containerd/nri/pkg/api"
+	"github.com/containerd/nri/pkg/zzverif/vsched"
 	"github.com/containerd/ttrpc"
 	"google.golang.org/grpc/codes"
 	"google.golang.org/grpc/status"
@@ -79,6 +80,14 @@ func ev(f func(r *adaptation.Adaptation, e *api.StateChangeEvent) error) func(r 
 	}
 }
 
+// podEv: pod-level events carry no container, as a runtime sends them
+func podEv(f func(r *adaptation.Adaptation, e *api.StateChangeEvent) error) func(r *adaptation.Adaptation, id string) (map[string]string, []*api.ContainerUpdate, bool, error) {
+	return func(r *adaptation.Adaptation, id string) (map[string]string, []*api.ContainerUpdate, bool, error) {
+		err := f(r, &api.StateChangeEvent{Pod: pod})
+		return nil, nil, err == nil, err
+	}
+}
+
 var calls = []lifecycle{
 	{"CreateContainer", func(r *adaptation.Adaptation, id string) (map[string]string, []*api.ContainerUpdate, bool, error) {
 		rpl, err := r.CreateContainer(ctx, &api.CreateContainerRequest{Pod: pod, Container: ctr(id)})
@@ -97,10 +106,10 @@ var calls = []lifecycle{
 		rpl, err := r.UpdatePodSandbox(ctx, &api.UpdatePodSandboxRequest{Pod: pod})
 		return nil, nil, rpl != nil, err
 	}},
-	{"RunPodSandbox", ev(func(r *adaptation.Adaptation, e *api.StateChangeEvent) error { return r.RunPodSandbox(ctx, e) })},
-	{"StopPodSandbox", ev(func(r *adaptation.Adaptation, e *api.StateChangeEvent) error { return r.StopPodSandbox(ctx, e) })},
-	{"RemovePodSandbox", ev(func(r *adaptation.Adaptation, e *api.StateChangeEvent) error { return r.RemovePodSandbox(ctx, e) })},
-	{"PostUpdatePodSandbox", ev(func(r *adaptation.Adaptation, e *api.StateChangeEvent) error { return r.PostUpdatePodSandbox(ctx, e) })},
+	{"RunPodSandbox", podEv(func(r *adaptation.Adaptation, e *api.StateChangeEvent) error { return r.RunPodSandbox(ctx, e) })},
+	{"StopPodSandbox", podEv(func(r *adaptation.Adaptation, e *api.StateChangeEvent) error { return r.StopPodSandbox(ctx, e) })},
+	{"RemovePodSandbox", podEv(func(r *adaptation.Adaptation, e *api.StateChangeEvent) error { return r.RemovePodSandbox(ctx, e) })},
+	{"PostUpdatePodSandbox", podEv(func(r *adaptation.Adaptation, e *api.StateChangeEvent) error { return r.PostUpdatePodSandbox(ctx, e) })},
 	{"PostCreateContainer", ev(func(r *adaptation.Adaptation, e *api.StateChangeEvent) error { return r.PostCreateContainer(ctx, e) })},
 	{"PostStartContainer", ev(func(r *adaptation.Adaptation, e *api.StateChangeEvent) error { return r.PostStartContainer(ctx, e) })},
 	{"PostUpdateContainer", ev(func(r *adaptation.Adaptation, e *api.StateChangeEvent) error { return r.PostUpdateContainer(ctx, e) })},
@@ -547,6 +556,7 @@ func runCutCase(c cutCase) (viol []string, sig string) {
 	}
 	var e *cutEnv
 	release := make(chan struct{})
+	lateEntered, lateGo := make(chan struct{}), make(chan struct{})
 	inside := func(p int, m string) {
 		if c.Fault2 == "hang" && p == c.Victim2 {
 			<-release
@@ -561,6 +571,10 @@ func runCutCase(c cutCase) (viol []string, sig string) {
 			time.Sleep(5 * time.Millisecond)
 		case "hang":
 			<-release
+		case "late-answer":
+			// answers only when told to (after the gate in the multiplexer readers is armed)
+			close(lateEntered)
+			<-lateGo
 		case "hang-updating":
 			// the hanging plugin also has an unsolicited update of its own in flight
 			go e.plugins[p].Stub.UpdateContainers([]*api.ContainerUpdate{{ContainerId: "by-the-hanging-plugin"}})
@@ -647,6 +661,32 @@ func runCutCase(c cutCase) (viol []string, sig string) {
 		done <- result{a, u, ok, err}
 	}()
 	horizon := time.Duration(c.N)*reqTimeout + 6*time.Second
+	if c.Fault == "late-answer" {
+		// the victim's answer is read off the trunk by the runtime's multiplexer while the runtime gives
+		// up on the plugin: the frame is held right before it is queued until the plugin has been closed
+		select {
+		case <-lateEntered:
+			var gmu sync.Mutex
+			armed := true
+			gateRelease := make(chan struct{})
+			vsched.SetGate("mux.queue", func(any) {
+				gmu.Lock()
+				a := armed
+				gmu.Unlock()
+				if a {
+					<-gateRelease
+				}
+			})
+			close(lateGo)
+			time.Sleep(time.Until(start.Add(reqTimeout + 150*time.Millisecond)))
+			gmu.Lock()
+			armed = false
+			gmu.Unlock()
+			close(gateRelease)
+		case <-time.After(5 * time.Second):
+			close(lateGo)
+		}
+	}
 	var r result
 	select {
 	case r = <-done:
@@ -833,7 +873,7 @@ func engineCuts(f *rep.Flags, res *rep.Result) {
 				for k := int64(0); k < rs; k++ {
 					cases = append(cases, cutCase{Call: cn, N: n, Victim: v, Fault: "rt-cut-read", Offset: k})
 				}
-				for _, ft := range []string{"stop-before", "stop-inside", "stop-after", "hang", "hang-updating", "handler-error", "flood"} {
+				for _, ft := range []string{"stop-before", "stop-inside", "stop-after", "hang", "hang-updating", "handler-error", "flood", "late-answer"} {
 					cases = append(cases, cutCase{Call: cn, N: n, Victim: v, Fault: ft})
 				}
 				for _, k := range []int64{0, rq / 2, rq - 1} {
@@ -910,13 +950,30 @@ func engineCuts(f *rep.Flags, res *rep.Result) {
 			}
 		}()
 	}
+	var sequential []cutCase
 	for i, c := range cases {
 		if i%f.NShards == f.Shard {
+			if c.Fault == "late-answer" {
+				sequential = append(sequential, c) // the gate in the multiplexer readers is process-wide
+				continue
+			}
 			jobs <- c
 		}
 	}
 	close(jobs)
 	wg.Wait()
+	for _, c := range sequential {
+		v, sig := runCutCase(c)
+		res.Evaluations++
+		res.States++
+		res.Transitions += 2
+		res.Distinct++
+		if len(v) > 0 {
+			suspects = append(suspects, c)
+			_ = sig
+		}
+	}
+	vsched.SetGate("mux.queue", nil)
 	// confirmation pass: a suspect must fail three times in a row, alone, to be believed
 	for _, c := range suspects {
 		var v []string
